@@ -9,6 +9,13 @@ variable {α : Type}
 
 namespace Arr
 
+/-- the push loop of `Array_Assign` from an iterator-only source (and of any `foreach … push`): contents -/
+theorem foldl_push_items (ys : List α) : ∀ (a : Arr α),
+    (ys.foldl (fun a y => (a.push y).1) a).items = a.items ++ ys := by
+  induction ys with
+  | nil => intro a; simp
+  | cons y ys ih => intro a; rw [List.foldl_cons, ih]; simp [push]
+
 theorem step_refines [BEq α] (a : Arr α) (op : Op α) (l' : List α)
     (h : Spec.arrStep a.items op = some l') : (a.step op).2 = .ok () ∧ (a.step op).1.items = l' := by
   cases op with
@@ -75,7 +82,9 @@ theorem step_refines [BEq α] (a : Arr α) (op : Op α) (l' : List α)
     · subst h; simp_all [clear]
     · simp [h]
   | sort f => simp [Spec.arrStep] at h; simp [step, sortBy, h]
-  | assign ys => simp [Spec.arrStep] at h; simp [step, assign, h]
+  | assign ys b =>
+    simp [Spec.arrStep] at h; subst h
+    cases b <;> simp [step, assign, foldl_push_items, clear]
 
 /-- an argument that is out of range for the abstract operation raises and leaves the Array as it was -/
 theorem step_out_of_range [BEq α] (a : Arr α) (op : Op α) (h : Spec.arrStep a.items op = none) :
@@ -114,7 +123,7 @@ theorem step_out_of_range [BEq α] (a : Arr α) (op : Op α) (h : Spec.arrStep a
   | concat ys => simp [Spec.arrStep] at h
   | resize n => simp [Spec.arrStep] at h
   | sort f => simp [Spec.arrStep] at h
-  | assign ys => simp [Spec.arrStep] at h
+  | assign ys b => simp [Spec.arrStep] at h
 
 /-- get with positive and negative indices -/
 theorem get_eq (a : Arr α) (i : Int) :
@@ -180,6 +189,17 @@ theorem popAt_capOk (a : Arr α) (i : Int) (h : a.CapOk) : (a.popAt i).1.CapOk :
     simp only [List.length_append, List.length_take, List.length_drop]
     omega
 
+theorem foldl_push_capOk (ys : List α) : ∀ (a : Arr α), a.CapOk →
+    (ys.foldl (fun a y => (a.push y).1) a).CapOk := by
+  induction ys with
+  | nil => intro a h; exact h
+  | cons y ys ih =>
+    intro a _
+    rw [List.foldl_cons]
+    apply ih
+    unfold CapOk
+    simpa [push, nitems] using reserveMore_ge (a.items.length + 1) a.nslots
+
 theorem step_capOk [BEq α] (a : Arr α) (op : Op α) (h : a.CapOk) : (a.step op).1.CapOk := by
   have hlen : a.nitems = a.items.length := rfl
   cases op with
@@ -226,7 +246,11 @@ theorem step_capOk [BEq α] (a : Arr α) (op : Op α) (h : a.CapOk) : (a.step op
     unfold CapOk at *
     simp only [step, sortBy, Sort.sortList_length]
     exact h
-  | assign ys => unfold CapOk; simp [step, assign]
+  | assign ys b =>
+    cases b
+    · simp only [step, assign, Bool.false_eq_true, if_false]
+      exact foldl_push_capOk ys _ (by simp [CapOk, clear])
+    · unfold CapOk; simp [step, assign]
 
 end Arr
 end Cello.Seq
